@@ -41,9 +41,9 @@ INLINE_TAGS = [ nsdict[item[0]]+":"+item[1] for item in inline_elements]
 # text boxes, drawing shapes with text, numbered paragraphs, indexes
 CONTAINER_TAGS = [
     'draw:frame', 'draw:text-box',
-    'draw:rect', 'draw:ellipse', 'draw:circle', 'draw:polygon', 'draw:polyline',
+    'draw:rect', 'draw:ellipse', 'draw:circle', 'draw:line', 'draw:polygon', 'draw:polyline',
     'draw:path', 'draw:regular-polygon', 'draw:connector', 'draw:caption',
-    'draw:measure', 'draw:custom-shape',
+    'draw:measure', 'draw:custom-shape', 'draw:g',
     'text:section', 'text:numbered-paragraph',
     'text:table-of-content', 'text:illustration-index', 'text:table-index',
     'text:object-index', 'text:user-index', 'text:alphabetical-index',
